@@ -397,6 +397,35 @@ class interpreted:
             setattr(ops, k, f)
 
 
+class StepBudgetExceeded(Exception):
+    pass
+
+
+class step_budget:
+    """deterministic rendering of "spins forever" for the indexed stream: every call of the partial kernel consumes a map
+    entry or moves to the next value sub-chunk, so a terminating run makes at most len(map) * (len(source) + 2) calls;
+    the module attribute is wrapped from outside (no hook in /repo) and a run exceeding the budget is reported as hang"""
+
+    def __init__(self, budget):
+        self.budget = budget
+
+    def __enter__(self):
+        ops = _env()["ops"]
+        self.orig = ops.ordered_map_valid_indexed_partial
+        state = {"n": 0}
+        orig, budget = self.orig, self.budget
+
+        def counted(*a):
+            state["n"] += 1
+            if state["n"] > budget:
+                raise StepBudgetExceeded()
+            return orig(*a)
+        ops.ordered_map_valid_indexed_partial = counted
+
+    def __exit__(self, *a):
+        _env()["ops"].ordered_map_valid_indexed_partial = self.orig
+
+
 def src_array(e, stype, src):
     np = e["np"]
     return np.array([real_value(stype, v) for v in src], dtype=stype)
@@ -415,6 +444,13 @@ def map_array(e, case):
 
 
 def impl(case):
+    try:
+        return impl__(case)
+    except StepBudgetExceeded:
+        return {"err": "hang", "msg": "ordered_map_valid_indexed_partial called more often than any terminating run can"}
+
+
+def impl__(case):
     if case.get("_malformed") and os.environ.get("USE_NUMBA", "").lower() != "false" \
             and not os.environ.get("NUMBA_BOUNDSCHECK"):
         _env()
@@ -444,7 +480,8 @@ def impl_(case):
         if case["map"]:
             mf.data.write(map_array(e, case))
         dest = fields.IndexedStringMemField(s)
-        ops.ordered_map_valid_indexed_stream(src, mf, dest, case["inv"], case["cs"], case["vf"])
+        with step_budget(len(case["map"]) * (len(case["entries"]) + 2) + 16):
+            ops.ordered_map_valid_indexed_stream(src, mf, dest, case["inv"], case["cs"], case["vf"])
         return {"indices": [int(x) for x in dest.indices[:].tolist()], "values": [int(x) for x in dest.values[:].tolist()]}
     if op == "next_map_subchunk":
         return {"r": int(ops.next_map_subchunk(map_array(e, case), case["sm"], case["inv"], case["cs"]))}
